@@ -238,15 +238,15 @@ func (l *logWatch) see(v any) {
 		l.breakerOpen.Add(1)
 	}
 }
-func (l *logWatch) Alert(v any)                        {}
-func (l *logWatch) Close() error                       { return nil }
-func (l *logWatch) Debug(v any, _ ...logx.LogField)    {}
-func (l *logWatch) Error(v any, _ ...logx.LogField)    { l.see(v) }
-func (l *logWatch) Info(v any, _ ...logx.LogField)     {}
-func (l *logWatch) Severe(v any)                       { l.see(v) }
-func (l *logWatch) Slow(v any, _ ...logx.LogField)     {}
-func (l *logWatch) Stack(v any)                        { l.see(v) }
-func (l *logWatch) Stat(v any, _ ...logx.LogField)     {}
+func (l *logWatch) Alert(v any)                     {}
+func (l *logWatch) Close() error                    { return nil }
+func (l *logWatch) Debug(v any, _ ...logx.LogField) {}
+func (l *logWatch) Error(v any, _ ...logx.LogField) { l.see(v) }
+func (l *logWatch) Info(v any, _ ...logx.LogField)  {}
+func (l *logWatch) Severe(v any)                    { l.see(v) }
+func (l *logWatch) Slow(v any, _ ...logx.LogField)  {}
+func (l *logWatch) Stack(v any)                     { l.see(v) }
+func (l *logWatch) Stat(v any, _ ...logx.LogField)  {}
 
 // ---------------------------------------------------------------------------- environment
 
@@ -326,12 +326,13 @@ func (e *Env) Outage(on bool) {
 	}
 }
 
-// Pad sends n successful PINGs to every server through the go-zero client, i.e. through
-// the per-address breaker.  The breaker starts to reject once failures exceed
-// 5 + 0.1 x successes of the last 10 s (k never drops below 1.1); with at least 12
-// PINGs right before every command the harness is going to fail that cannot happen.
-func (e *Env) Pad(n int) bool {
-	for i := 0; i < Nodes; i++ {
+// Pad sends n successful PINGs to each of the given servers through the go-zero client,
+// i.e. through the per-address breaker.  The breaker starts to reject once the failures
+// of the last 10 s exceed 5 + 0.1 x successes (its k never drops below 1.1); an operation
+// of this harness fails at most one command per server, and is preceded by n >= 12 PINGs
+// on every server it may reach, so that cannot happen.
+func (e *Env) Pad(nodes []int, n int) bool {
+	for _, i := range nodes {
 		for j := 0; j < n; j++ {
 			if !e.Rds[i].Ping() {
 				return false
@@ -448,6 +449,8 @@ type Want struct {
 	Loose bool
 	// Keep: the entry must be exactly what the model already holds (a hit changes nothing).
 	Keep bool
+	// MayVanish: like Keep, but the operation may as well have removed the entry.
+	MayVanish bool
 }
 
 // Failer is what the model needs from *rapid.T / *testing.T.
@@ -660,10 +663,26 @@ func (w *World) Settle(want map[string]Want) {
 		}
 		wt, touched := want[k]
 		if w.Dirty[k] {
-			// the retried invalidation may strike at any moment: nothing is pinned down for this key
-			wt, touched = Want{Loose: true}, true
+			// An invalidation of this key failed; the cleaner's retry (a DEL) may strike at any
+			// moment from now on.  So absence is always acceptable, and an entry that should have
+			// been removed may still be there unchanged; anything else is judged as usual.
+			if !s.Present {
+				w.adopt(k, s)
+				continue
+			}
+			if touched && wt.Absent {
+				w.same(k, w.entry(k), s)
+				continue
+			}
 		}
 		old := w.entry(k)
+		if touched && wt.MayVanish {
+			if s.Present {
+				w.same(k, old, s)
+			}
+			w.adopt(k, s)
+			continue
+		}
 		if !touched || wt.Keep {
 			w.same(k, old, s)
 			continue
